@@ -68,7 +68,15 @@ def _observe(job):
             rev = np.asarray(f(sub[::-1].copy()), dtype=float)[::-1]
             ext = np.vstack([np.array([[1e-4, 1 - 1e-4], [1 - 1e-4, 1e-4]]), sub, np.array([[0.5, 1e-4]])])
             mix = np.asarray(f(ext.copy()), dtype=float)[2:-1]
-            for arr in (rev, mix):
+            arrs = [rev, mix]
+            if name == 'h':
+                # the end points u = 0 and u = 1 (where h is 0 and 1) are evaluation points of the property too: rows carrying
+                # them, ahead of, between and behind interior rows, must not disturb the interior rows
+                k = len(sub) // 2
+                ends = np.vstack([np.array([[0.0, 0.3], [1.0, 0.6]]), sub[:k], np.array([[1.0, 0.2], [0.0, 0.7]]), sub[k:], np.array([[1.0, 0.5]])])
+                e = np.asarray(f(ends.copy()), dtype=float)
+                arrs.append(np.concatenate([e[2:2 + k], e[4 + k:-1]]))
+            for arr in arrs:
                 ff = O.fx(arr, sc)
                 for j, i in enumerate(idx):
                     rowwise.append({'a': int(bigf[i]), 'b': int(ff[j])})
@@ -94,7 +102,8 @@ def run(ctx):
                        'nothing is checked between grid points / outside [1e-4, 1-1e-4]^2']
     jobs = [(fam, pos, th, npts) for fam in O.FAMS for pos, th in enumerate(O.chain(fam, nchain), 1)]
     with Pool(16) as pool:
-        obs = pool.map(_observe, jobs, chunksize=1)
+        obs = pool.map(O.Safe(_observe), jobs, chunksize=1)
+    obs, jobs = O.split_raised(ctx, 'C07', obs, jobs, 'harness.props.C07._observe')
     ctx.extra['max_residual_over_bound_density'] = max(o['ratio'] for o in obs if np.isfinite(o['ratio']))
     recs = [{k: v for k, v in o.items() if k != 'ratio'} for o in obs]
     verdict = O.run_laws(ctx, 'DerivLaws', 'DerivLaws', recs)
